@@ -259,7 +259,62 @@ fn check_large(name: &str, h: &SparseMatrix, acc: &mut Acc) {
     check_graph_h(format!("girth:large:{}", name), json!({"kind": "large", "name": name}), &g, h, &bounds, name, acc)
 }
 
+/// Hubs too large for the edge-deletion reference (degree just past 4096 and 65536): a hub and ONE
+/// further node joining two chosen neighbours, so every answer is known in closed form.
+fn check_giant_hub(l: usize, a: usize, b: usize, transposed: bool, acc: &mut Acc) {
+    acc.evals += 1;
+    acc.nontrivial += 1;
+    let key = format!("girth:giant-hub:{}:{}:{}-{}", if transposed { "col" } else { "row" }, l, a, b);
+    let replay = json!({"kind": "giant", "l": l, "a": a, "b": b, "transposed": transposed});
+    let mut h = if transposed { SparseMatrix::new(l, 2) } else { SparseMatrix::new(2, l) };
+    for j in 0..l {
+        if transposed {
+            h.insert(j, 0);
+        } else {
+            h.insert(0, j);
+        }
+    }
+    for &x in &[a, b] {
+        if transposed {
+            h.insert(x, 1);
+        } else {
+            h.insert(1, x);
+        }
+    }
+    let (hub, other) = if transposed { (Node::Col(0), Node::Col(1)) } else { (Node::Row(0), Node::Row(1)) };
+    let leaf = |x: usize| if transposed { Node::Row(x) } else { Node::Col(x) };
+    let off = (0..l).find(|x| *x != a && *x != b).unwrap();
+    let res = guard(|| {
+        (
+            // the global searches visit every node as a root: quadratic, only for the smaller hubs
+            if l <= 5000 { h.girth() } else { Some(4) },
+            if l <= 5000 { h.girth_with_max(4) } else { Some(4) },
+            if l <= 5000 { h.girth_with_max(3) } else { None },
+            h.girth_at_node(hub),
+            h.girth_at_node(other),
+            h.girth_at_node(leaf(a)),
+            h.girth_at_node(leaf(b)),
+            h.girth_at_node(leaf(off)),
+            h.girth_at_node_with_max(hub, 4),
+            h.girth_at_node_with_max(hub, 2),
+        )
+    });
+    match res {
+        Err(e) => acc.violate(key, format!("panicked: {}", e), replay),
+        Ok(got) => {
+            let want = (Some(4), Some(4), None, Some(4), Some(4), Some(4), Some(4), None, Some(4), None);
+            if got != want {
+                acc.violate(key, format!("(girth, girth_with_max 4 / 3, girth_at_node hub / other / a / b / a leaf off the cycle, bounded at the hub 4 / 2) = {:?}, expected {:?}", got, want), replay);
+            }
+        }
+    }
+}
+
 fn replay_element(v: &Value, acc: &mut Acc) {
+    if v["kind"] == "giant" {
+        check_giant_hub(v["l"].as_u64().unwrap() as usize, v["a"].as_u64().unwrap() as usize, v["b"].as_u64().unwrap() as usize, v["transposed"].as_bool().unwrap(), acc);
+        return;
+    }
     if v["kind"] == "large" {
         for (n, h) in large_graphs(true).into_iter().chain(large_graphs(false)) {
             if Some(n.as_str()) == v["name"].as_str() {
@@ -318,6 +373,17 @@ pub fn run(run: &Run) -> i32 {
         }
         let a = par_items(&fam, |m, a| check_graph(m, "family", a));
         acc = acc.merge(a);
+        let mut giants: Vec<(usize, usize, usize, bool)> = Vec::new();
+        for &l in if run.thorough() { &[4097usize, 32769, 65537, 65600, 131073][..] } else { &[4097usize, 65537, 65600][..] } {
+            for (a, b) in [(0usize, l - 1), (0, 65536), (1, 65537), (4095, 4096), (65535, 65536), (17, 200), (0, 4096), (l - 2, l - 1)] {
+                if a < l && b < l && a != b {
+                    giants.push((l, a, b, false));
+                    giants.push((l, a, b, true));
+                }
+            }
+        }
+        let a = par_items(&giants, |&(l, x, y, t), a| check_giant_hub(l, x, y, t, a));
+        acc = acc.merge(a);
         let large = large_graphs(run.thorough());
         let a = par_items(&large, |(n, h), a| check_large(n, h, a));
         acc = acc.merge(a);
@@ -347,7 +413,7 @@ pub fn run(run: &Run) -> i32 {
         run,
         acc,
         Coverage {
-            rule: "every binary matrix of every listed shape (all masks) x every row and column root x bounds {0..10,12,16,MAX}; families: 2L-cycle with a pendant path of 1..8 edges at every attachment point (L=2..6), theta graphs (two cycles sharing a path), complete bipartite minus a matching up to 12x12; large graphs (2L-cycles for L = 17, 33, 65, 129, 257 (thorough to 1025), with a chord, two components, paths, a hub row / hub column of degree L; hubs of degree 257 and 300 with exactly one cycle through two chosen positions of the hub's list) with every root and bounds around their girth; every 5x5 supergraph of a fixed 6-cycle / 8-cycle through node 0 (all settings of the first 17 (thorough: all) free entries). Reference: BFS distances; local girth = min over incident edges e of 1 + dist in G-e. Non-trivial = graph contains a cycle; forests and graphs with a cycle-free node attached to a cyclic component are counted separately.".into(),
+            rule: "every binary matrix of every listed shape (all masks) x every row and column root x bounds {0..10,12,16,MAX}; families: 2L-cycle with a pendant path of 1..8 edges at every attachment point (L=2..6), theta graphs (two cycles sharing a path), complete bipartite minus a matching up to 12x12; large graphs (2L-cycles for L = 17, 33, 65, 129, 257 (thorough to 1025), with a chord, two components, paths, a hub row / hub column of degree L; hubs of degree 257 and 300 with exactly one cycle through two chosen positions of the hub's list) with every root; hubs of degree 4097, 65537, 65600 (thorough 131073) with one such cycle, judged in closed form and bounds around their girth; every 5x5 supergraph of a fixed 6-cycle / 8-cycle through node 0 (all settings of the first 17 (thorough: all) free entries). Reference: BFS distances; local girth = min over incident edges e of 1 + dist in G-e. Non-trivial = graph contains a cycle; forests and graphs with a cycle-free node attached to a cyclic component are counted separately.".into(),
             exhaustive: true,
             extra: serde_json::Map::new(),
             graph: None,
